@@ -32,10 +32,13 @@ type RCase struct {
 	// open until the shutdown and is released immediately before Close, so that the
 	// obsolete tables it pinned are being removed while the DB closes.
 	LateRelease bool `json:"laterelease,omitempty"`
+	// TrAtClose: the history ends inside a transaction that has written tables; it is still open when
+	// the DB is closed (Close discards it), and none of its writes may be in the recovered DB.
+	TrAtClose bool `json:"tratclose,omitempty"`
 }
 
 type rStats struct {
-	lateRelease                  bool
+	lateRelease, trAtClose       bool
 	levels, tables, blocks       int
 	overwritten, deleted, inJrnl bool
 	damagedNewest, damagedOlder  bool
@@ -110,6 +113,7 @@ func runRecover(c *RCase) (st rStats, err error) {
 			}
 		}()
 	}
+	e.KeepTr = c.TrAtClose
 	if err := e.ReleaseHandles(); err != nil {
 		return st, err
 	}
@@ -127,7 +131,11 @@ func runRecover(c *RCase) (st rStats, err error) {
 	refsBefore := fmt.Sprint(e.DB.VerifFileRefs())
 	// the premise of the property is a clean, settled shutdown: nothing but live files in storage
 	// (with a late iterator the tables of its version are legitimately still there)
-	if lateIt == nil {
+	trOpen := e.Tr != nil
+	if trOpen {
+		st.trAtClose = true
+	}
+	if lateIt == nil && !trOpen {
 		if err := e.CheckFileSet("settled state before shutdown"); err != nil {
 			return st, fmt.Errorf("%v (live tables:%s; files: %s; table references: %s)", err, liveBefore, filesBefore, refsBefore)
 		}
@@ -377,6 +385,22 @@ func drawRCase(t *rapid.T) *RCase {
 		}
 	}
 	c.LateRelease = rapid.IntRange(0, 2).Draw(t, "laterelease") == 0
+	if rapid.IntRange(0, 4).Draw(t, "tratclose") == 0 {
+		// the history ends inside a transaction big enough to have flushed tables of its own
+		c.TrAtClose = true
+		c.Base.Ops = append(c.Base.Ops, dbm.Op{T: "tropen"})
+		wb := c.Base.Opts.WriteBuffer
+		if wb > 4096 {
+			wb = 4096
+		}
+		for j := rapid.IntRange(3, 8).Draw(t, "trputs"); j > 0; j-- {
+			if rapid.IntRange(0, 3).Draw(t, "trdel") == 0 {
+				c.Base.Ops = append(c.Base.Ops, dbm.Op{T: "del", K: rapid.IntRange(0, nk-1).Draw(t, "trk")})
+			} else {
+				c.Base.Ops = append(c.Base.Ops, dbm.Op{T: "put", K: rapid.IntRange(0, nk-1).Draw(t, "trk"), V: gen.VSpec{Len: wb/2 + 30, Fill: j % 2}})
+			}
+		}
+	}
 	c.Manifest = rapid.SampledFrom([]string{"remove", "truncate", "garbage", "nometa"}).Draw(t, "manifest")
 	c.TruncAt = rapid.IntRange(0, 1<<16).Draw(t, "truncat")
 	if rapid.IntRange(0, 9).Draw(t, "dmg") >= 6 {
@@ -435,6 +459,7 @@ func TestC19(t *testing.T) {
 		add(st.deleted, "tombstone-physically-present")
 		add(st.inJrnl, "data-in-journal")
 		add(st.lateRelease, "iterator-released-right-before-close")
+		add(st.trAtClose, "transaction-open-at-close")
 		add(len(c.Damage) > 0, "block-damage")
 		add(st.damagedNewest, "damage-hit-newest-version")
 		add(st.damagedOlder, "damage-hit-older-version")
